@@ -19,6 +19,7 @@ class World:
     def __init__(self, rng, nscenes, rotated, region=120.0, dense=False, visual=False):
         self.rng = rng
         self.visual = visual
+        self.dim = rng.choice([4, 4, 8, 12, 20, 3])     # feature dimension (also > 8 and not a multiple of 8: partial last block)
         self.bases = []
         self.rotated = rotated
         self.region = region
@@ -35,7 +36,7 @@ class World:
             b = r.choice(self.bases)
             e = [v + r.uniform(-0.05, 0.05) for v in b]
         else:
-            e = [r.uniform(-1, 1) for _ in range(4)]
+            e = [r.uniform(-1, 1) for _ in range(self.dim)]
         self.bases.append(e)
         return e
 
@@ -80,7 +81,7 @@ class World:
         q = r.choice([None, 0.2, 0.45, 0.55, 0.69, 0.71, 0.9, r.uniform(0, 1)])
         if r.random() < 0.15:
             return ((q, None),)
-        emb = o["emb"] if o is not None else [r.uniform(-1, 1) for _ in range(4)]
+        emb = o["emb"] if o is not None else [r.uniform(-1, 1) for _ in range(self.dim)]
         noise = r.choice([0.01, 0.01, 0.05, 0.3])
         return ((q, [f32(v + r.uniform(-noise, noise)) for v in emb]),)
 
@@ -104,11 +105,13 @@ def new_line(rng, kind, shards=None, vshards=None, hist=None, max_idle=None, met
         vk = rng.choice([("euclid", rng.choice([0.15, 0.3, 0.6])), ("cosine", rng.choice([0.9, 0.98, 0.3]))])
         max_obs = rng.randint(1, 8)
         min_len = rng.randint(1, min(3, max_obs))
-        own = rng.random() < 0.3
+        own = rng.random() < 0.4
+        # the two own-area thresholds are set independently: both, only `use`, only `collect`
+        own_use, own_col = rng.choice([(0.3, 0.6), (0.6, 0.3), (0.5, 0.0), (0.0, 0.5), (0.7, 0.0), (0.0, 0.7)]) if own else (0.0, 0.0)
         line += " V %s %s %d %d %d %s %s %s %s %s" % (vk[0], f32tok(vk[1]), rng.randint(1, 3), min_len, max_obs,
                                                       f32tok(rng.choice([0.0, 0.3, 0.5])), f32tok(rng.choice([0.0, 0.5, 0.7])),
                                                       f32tok(rng.choice([0.0, 100.0, 400.0])),
-                                                      f32tok(rng.choice([0.3, 0.6]) if own else 0.0), f32tok(rng.choice([0.3, 0.6]) if own else 0.0))
+                                                      f32tok(own_use), f32tok(own_col))
     return line
 
 
